@@ -27,6 +27,16 @@ fn bad<T: Sc>(b: BadValue) -> T {
     }
 }
 
+/// VPSIM_TRACE=1: print every model call with its parameter values (debugging aid; draws
+/// nothing from the PRNG and touches no clock)
+pub static TRACE: std::sync::atomic::AtomicBool = std::sync::atomic::AtomicBool::new(false);
+
+fn trace<T: Sc>(what: &str, a: &[T]) {
+    if TRACE.load(std::sync::atomic::Ordering::Relaxed) {
+        eprintln!("  model call {what} alpha={:?}", a.iter().map(|v| v.f()).collect::<Vec<_>>());
+    }
+}
+
 fn ahash<T: Sc>(a: &[T]) -> u64 {
     let b: Vec<u64> = a.iter().map(|v| v.bits()).collect();
     hash_bits(&b)
@@ -74,6 +84,7 @@ impl<T: Sc> SeparableNonlinearModel for SimModel<T> {
                 parameters.len()
             )));
         }
+        trace("set_params", parameters.as_slice());
         let fault = self
             .ctl
             .call(CallKind::SetParams, ahash(parameters.as_slice()));
@@ -101,6 +112,7 @@ impl<T: Sc> SeparableNonlinearModel for SimModel<T> {
 
     fn eval(&self) -> Result<DMatrix<T>, SimError> {
         self.ctl.sched_point();
+        trace("eval", self.alpha.as_slice());
         let fault = self.ctl.call(CallKind::Eval, ahash(self.alpha.as_slice()));
         let out = match fault {
             Some(FaultAction::NonFinite(b, cell)) => {
@@ -163,6 +175,7 @@ fn closure_body<T: Sc>(
     p: &[T],
 ) -> DVector<T> {
     ctl.sched_point();
+    trace(&format!("{kind:?}"), p);
     let fault = ctl.call(kind, ahash(p));
     let n = x.len();
     let compute = |len: usize| -> DVector<T> {
